@@ -52,6 +52,29 @@ Definition run_layout (p : plat) (meth variant : string) (rs : records) : jv :=
        | None => jnone
        end ].
 
+(* the decoded slot usage itself (also for answers that cannot be evaluated on int records) *)
+Definition jv_src (s : src) : jv :=
+  match s with
+  | SSlot fn i m => JC "Slot" [jstr fn; JZ i; JZ m]
+  | SConst z => JC "Const" [JZ z]
+  | SNone => JC "SNone" []
+  | SFun fn l => JC "Fun" [jstr fn; JL (map JZ l)]
+  | SUnknown => JC "Unknown" []
+  end.
+Definition jv_srcs (fs : list (string * src)) : jv := JL (map (fun f => JL [jstr (fst f); jv_src (snd f)]) fs).
+Definition run_olayout (p : plat) (meth variant : string) : jv :=
+  JL [ match find_urow p meth variant usage_rows with
+       | Some u => JL [jv_shape (u_shape u); jstr (u_type u); jv_srcs (u_fields u)]
+       | None => JC "NoRow" []
+       end;
+       match doc_layout p meth variant with
+       | Some d => match resolve_fields p (d_fields d) with
+                   | Some fs => JL [jv_shape (d_shape d); jstr (d_type d); jv_srcs fs]
+                   | None => JC "Unresolved" []
+                   end
+       | None => jnone
+       end ].
+
 (* does the answer of status()/terminal() depend on its documented slot?  probed row vs documentation *)
 Definition run_dep (p : plat) (meth : string) : jv :=
   match doc_deps p meth with
